@@ -498,6 +498,11 @@ def run(ctx):
         clr = [x for x in ast.walk(loop) if (isinstance(x, ast.Delete) and any(isinstance(t, ast.Subscript) and isinstance(t.value, ast.Name) and t.value.id == lst for t in x.targets))
                or (isinstance(x, ast.Call) and U.attr_name(x) == 'clear' and isinstance(x.func.value, ast.Name) and x.func.value.id == lst)]
         buffered = bool(clr) and min(x.lineno for x in clr) < in_loop[0].lineno
+    if buffered:
+        # the header block is in the record when begin_response fires (the payload offset is taken there): the replay precedes it
+        lp_ = buffered_forwarder(hs.node, hdefs, adds_before[0].args[0].id)[2]
+        br_ = [c_ for c_ in U.calls(hs.node) if U.attr_name(c_) == 'notify' and any(isinstance(x, ast.Attribute) and x.attr == 'begin_response' for a_ in c_.args for x in ast.walk(a_))]
+        buffered = bool(br_) and all(lp_.lineno < c_.lineno for c_ in br_)
     ck.expect((len(rr) == 1 and not in_loop) or buffered, 'C05-D3', hs.qual, 'one header block reaches the response record before begin_response',
               'Session.start reads %s header block(s)%s while the recorder\'s listener is attached: the response record then holds more than '
               'one header block and the payload offset (taken at begin_response) points behind them - WARC-Payload-Digest is not the digest of '
